@@ -468,7 +468,8 @@ def explore_stateful(res, vi, variant, tier, coarse):
             st["choices"] = ch.choices
     cap = 40000 if tier == "quick" else 400000
     try:
-        stt = explore(run_fn, bound=None, seen={}, max_execs=cap)
+        stt = explore(run_fn, bound=None, seen={}, max_execs=cap,
+                      time_cap=900 if tier == "quick" else 2400)
     except InternalsChanged as e:
         res.notes.append(f"explicit-state exploration of variant {vi} skipped: {e}; the "
                          f"preemption-bounded exploration still covers it")
@@ -530,10 +531,14 @@ def explore_variant(res, half, vi, variant, tier, roots=None, root_run=True):
                     st["msg"] = msg
                 st["choices"] = ch.choices
         try:
+            tc = 900 if tier == "quick" else 2400
             if roots is None:
-                stt = explore(run_fn, bound=bound)
+                stt = explore(run_fn, bound=bound, time_cap=tc)
             else:
-                stt = explore(run_fn, bound=bound, roots=roots)
+                stt = explore(run_fn, bound=bound, roots=roots, time_cap=tc)
+            if stt["capped"]:
+                res.stats["capped_scenarios"] += 1
+                res.hist[f"{half}:v{vi}:TIME-CAPPED"] += 1
         except ReplayDivergence as e:
             res.violation({"category": "replay-divergence", "half": half},
                           {"half": half, "variant": vi}, f"harness: {e}")
@@ -568,20 +573,12 @@ def worker(block):
         install_virtual_loop()
     if half.startswith("stateful"):
         variant = variants(tier, "threads")[vi]
-        try:
-            with deadline(7000):
-                explore_stateful(res, vi, variant, tier, coarse=(half == "stateful-coarse"))
-        except Hang:
-            res.violation({"category": "hang", "half": half}, {"half": half, "variant": vi},
-                          "stateful exploration exceeded its time budget")
+        # (every single execution has its own timeout inside the scheduler; the exploration as
+        # a whole is bounded by max_execs and a wall-clock cap that is reported as a cap)
+        explore_stateful(res, vi, variant, tier, coarse=(half == "stateful-coarse"))
         return res
     variant = variants(tier, half)[vi]
-    try:
-        with deadline(3000):
-            explore_variant(res, half, vi, variant, tier, roots=roots)
-    except Hang:
-        res.violation({"category": "hang", "half": half}, {"half": half, "variant": vi},
-                      "exploration exceeded its time budget")
+    explore_variant(res, half, vi, variant, tier, roots=roots)
     orders = getattr(res, "notes_orders", {})
     for (h, v), s in orders.items():
         res.stats[f"distinct_orders_{h}_v{v}_max"] = len(s)
